@@ -94,10 +94,26 @@ func corrC12(c *corrCtx) {
 			names = append(names, fmt.Sprintf("g%d_%d", i, j))
 		}
 	}
+	// distinct but nearby whites (the same illuminant as published with 4 or 5 digits, small offsets)
+	nBase := len(whites)
+	for _, n := range []string{"D65", "D50", "A", "E"} {
+		w := illuminants[n]
+		for _, d := range []float32{1e-5, 1e-4, 3e-4, 1e-3} {
+			whites = append(whites, [2]float32{w[0] + d, w[1] - d/2})
+			names = append(names, fmt.Sprintf("%s+%g", n, d))
+		}
+	}
+	whites = append(whites, [2]float32{0.3127, 0.3290}, [2]float32{0.3457, 0.3585})
+	names = append(names, "D65-4digit", "D50-4digit")
+	_ = nBase
 	worstWhite, worstRef, worstCompose := 0.0, 0.0, 0.0
 	for ai, A := range whites {
 		for bi, B := range whites {
-			if !c.thorough() && ai >= 11 && bi >= 11 && (ai*31+bi*17)%9 != 0 {
+			nearby := ai >= nBase || bi >= nBase
+			if nearby && !(ai < 11 || bi < 11 || (ai >= nBase && bi >= nBase)) {
+				continue // nearby whites are paired with the illuminants and with each other
+			}
+			if !c.thorough() && !nearby && ai >= 11 && bi >= 11 && (ai*31+bi*17)%9 != 0 {
 				continue
 			}
 			ca := ciexyz.AdaptBetweenXYYWhitePoints(xyy(A), xyy(B))
